@@ -13,16 +13,16 @@ theorem okDen_denOk {cfg : Cfg} {g : Nat} {d : Den} (h : okDen cfg g d = true) :
     have h3 : c < 3 := of_decide_eq_true h.1
     exact h3
 
-theorem refundFlow_acct (cfg : Cfg) (c : Nat) (call : OutCall) (g' u' : Nat) (hc3 : c < 3) (fl : List Prim)
+theorem refundFlow_acct (cfg : Cfg) (c : Nat) (call : OutCall) (g' : Nat) (x : Addr) (hx : Holder x) (hc3 : c < 3) (fl : List Prim)
     (h : refundFlow cfg c call = .ok fl) :
-    (acctObs g' (U u')).flowDelta fl = if call.refund = u' then (tokensValue g' call.tokens : Int) else 0 := by
+    (acctObs g' x).flowDelta fl = if U call.refund = x then (tokensValue g' call.tokens : Int) else 0 := by
   simp only [refundFlow] at h; exc'
   cases h1 : tokensFlow cfg c call.tokens (fun k g n => bridgeCallRefundCoin k g c (U call.refund) n) with
   | error e => simp [h1] at h
   | ok fl1 =>
     simp only [h1] at h
-    have hd1 := tokensFlow_obs (acctObs g' (U u')) cfg c g' _ (if call.refund = u' then 1 else 0)
-      (by intro k g n _; rw [acct_refundCoin g' u' k g c call.refund n hc3]; split <;> split <;> simp_all)
+    have hd1 := tokensFlow_obs (acctObs g' x) cfg c g' _ (if U call.refund = x then 1 else 0)
+      (by intro k g n _; rw [acct_refundCoin g' x hx k g c call.refund n hc3]; split <;> split <;> simp_all)
       call.tokens fl1 h1
     cases hfm : call.fromMsg
     · simp only [hfm, Bool.false_eq_true, ↓reduceIte] at h
@@ -30,15 +30,15 @@ theorem refundFlow_acct (cfg : Cfg) (c : Nat) (call : OutCall) (g' u' : Nat) (hc
       | error e => simp [h2] at h
       | ok fl2 =>
         simp only [h2, Except.ok.injEq] at h; subst h
-        rw [flowDelta_append, hd1, refundToEvm_obs _ cfg call.refund (fun k g n => acct_refundToEvm g' u' k g _ n) _ _ h2]
+        rw [flowDelta_append, hd1, refundToEvm_obs _ cfg call.refund (fun k g n => acct_refundToEvm g' x hx k g _ n) _ _ h2]
         split <;> simp
     · simp only [hfm, ↓reduceIte, Except.ok.injEq] at h; subst h
       rw [flowDelta_append, hd1]; simp only [Obs.flowDelta]; split <;> simp
 
 /-- the flow of an operation changes a user's holdings by exactly the stated amount -/
-theorem opFlow_acct (cfg : Cfg) (s s' : State) (op : Op) (g' u' : Nat) (hc : ∀ c, op.chain? = some c → c < 3)
+theorem opFlow_acct (cfg : Cfg) (s s' : State) (op : Op) (g' : Nat) (x : Addr) (hx : Holder x) (hc : ∀ c, op.chain? = some c → c < 3)
     (h : stepCore cfg s op = .ok s') (fl : List Prim) (hfl : opFlow cfg s op = .ok fl) :
-    (acctObs g' (U u')).flowDelta fl = stated s op u' g' := by
+    (acctObs g' x).flowDelta fl = stated s op x g' := by
   cases op with
   | deposit c g u n toErc =>
     have hc3 := hc c rfl
@@ -49,13 +49,13 @@ theorem opFlow_acct (cfg : Cfg) (s s' : State) (op : Op) (g' u' : Nat) (hc : ∀
       simp only [hk] at hfl
       cases toErc
       · simp only [Bool.false_eq_true, ↓reduceIte, Except.ok.injEq] at hfl; subst hfl
-        rw [acct_deposit g' u' k g c u n hc3]; rfl
+        rw [acct_deposit g' x hx k g c u n hc3]; rfl
       · simp only [↓reduceIte] at hfl
         cases hp : pairOk cfg g with
         | none => simp [hp] at hfl
         | some k' =>
           simp only [hp, Except.ok.injEq] at hfl; subst hfl
-          rw [flowDelta_append, acct_deposit g' u' k g c u n hc3, acct_convertCoin]
+          rw [flowDelta_append, acct_deposit g' x hx k g c u n hc3, acct_convertCoin g' x hx]
           simp only [stated]; omega
   | send c g u n fee =>
     have hc3 := hc c rfl
@@ -64,7 +64,7 @@ theorem opFlow_acct (cfg : Cfg) (s s' : State) (op : Op) (g' u' : Nat) (hc : ∀
     | none => simp [hk] at hfl
     | some k =>
       simp only [hk, Except.ok.injEq] at hfl; subst hfl
-      rw [acct_withdraw g' u' k g c u _ hc3]; simp only [stated]; split <;> simp
+      rw [acct_withdraw g' x hx k g c u _ hc3]; simp only [stated]; split <;> simp
   | xsend c g u n fee =>
     have hc3 := hc c rfl
     simp only [opFlow] at hfl; exc'
@@ -76,7 +76,7 @@ theorem opFlow_acct (cfg : Cfg) (s s' : State) (op : Op) (g' u' : Nat) (hc : ∀
       | none => simp [hk] at hfl
       | some k =>
         simp only [hk, Except.ok.injEq] at hfl; subst hfl
-        rw [flowDelta_append, acct_precompileTokenIn, acct_withdraw g' u' k g c u _ hc3]
+        rw [flowDelta_append, acct_precompileTokenIn g' x hx, acct_withdraw g' x hx k g c u _ hc3]
         simp only [stated]; split <;> simp
   | vsend c g u n fee =>
     have hc3 := hc c rfl
@@ -85,7 +85,7 @@ theorem opFlow_acct (cfg : Cfg) (s s' : State) (op : Op) (g' u' : Nat) (hc : ∀
     | none => simp [hk] at hfl
     | some k =>
       simp only [hk, Except.ok.injEq] at hfl; subst hfl
-      rw [flowDelta_append, acct_valueIn, acct_withdraw g' u' k g c u _ hc3]
+      rw [flowDelta_append, acct_valueIn g' x, acct_withdraw g' x hx k g c u _ hc3]
       simp only [stated]; split <;> simp
   | xincfee c id u g n =>
     have hc3 := hc c rfl
@@ -98,8 +98,8 @@ theorem opFlow_acct (cfg : Cfg) (s s' : State) (op : Op) (g' u' : Nat) (hc : ∀
       | none => simp [hk] at hfl
       | some k =>
         simp only [hk, Except.ok.injEq] at hfl; subst hfl
-        rw [flowDelta_append, flowDelta_append, acct_precompileTokenIn, acct_feeToBridgeDenom g' u' k g c u n hc3,
-          acct_addBridgeFee g' u' k g c u n hc3]
+        rw [flowDelta_append, flowDelta_append, acct_precompileTokenIn g' x hx, acct_feeToBridgeDenom g' x hx k g c u n hc3,
+          acct_addBridgeFee g' x hx k g c u n hc3]
         simp only [stated]; split <;> simp
   | incfee c id u g n =>
     have hc3 := hc c rfl
@@ -108,7 +108,7 @@ theorem opFlow_acct (cfg : Cfg) (s s' : State) (op : Op) (g' u' : Nat) (hc : ∀
     | none => simp [hk] at hfl
     | some k =>
       simp only [hk, Except.ok.injEq] at hfl; subst hfl
-      rw [acct_addBridgeFee g' u' k g c u n hc3]
+      rw [acct_addBridgeFee g' x hx k g c u n hc3]
       simp only [stated]; split <;> simp
   | cancel c id u =>
     have hc3 := hc c rfl
@@ -124,13 +124,13 @@ theorem opFlow_acct (cfg : Cfg) (s s' : State) (op : Op) (g' u' : Nat) (hc : ∀
         simp only [hk] at hfl
         cases hrel : tx.relation
         · simp only [hrel, Bool.false_eq_true, ↓reduceIte, Except.ok.injEq] at hfl; subst hfl
-          rw [acct_deposit g' u' k tx.g c u _ hc3]; simp only [stated, he]
+          rw [acct_deposit g' x hx k tx.g c u _ hc3]; simp only [stated, he]
         · simp only [hrel, ↓reduceIte] at hfl
           cases hp : pairOk cfg tx.g with
           | none => simp [hp] at hfl
           | some k' =>
             simp only [hp, Except.ok.injEq] at hfl; subst hfl
-            rw [flowDelta_append, acct_deposit g' u' k tx.g c u _ hc3, acct_convertCoin]
+            rw [flowDelta_append, acct_deposit g' x hx k tx.g c u _ hc3, acct_convertCoin g' x hx]
             simp only [stated, he]; omega
   | batch c g bf mf ao =>
     simp only [opFlow, pure, Except.pure, Except.ok.injEq] at hfl; subst hfl; rfl
@@ -142,8 +142,8 @@ theorem opFlow_acct (cfg : Cfg) (s s' : State) (op : Op) (g' u' : Nat) (hc : ∀
     have hc3 := hc c rfl
     simp only [opFlow] at hfl; exc'
     have hout : ∀ flOut, tokensFlow cfg c tokens (fun k g n => baseCoinToBridgeToken k g c (U u) n) = .ok flOut →
-        (acctObs g' (U u')).flowDelta flOut = (if u = u' then -1 else 0) * (tokensValue g' tokens : Int) := fun flOut hf =>
-      tokensFlow_obs _ cfg c g' _ _ (by intro k g n _; rw [acct_withdraw g' u' k g c u n hc3]; split <;> split <;> simp_all)
+        (acctObs g' x).flowDelta flOut = (if U u = x then -1 else 0) * (tokensValue g' tokens : Int) := fun flOut hf =>
+      tokensFlow_obs _ cfg c g' _ _ (by intro k g n _; rw [acct_withdraw g' x hx k g c u n hc3]; split <;> split <;> simp_all)
         tokens flOut hf
     cases pre
     · simp only [Bool.false_eq_true, ↓reduceIte] at hfl
@@ -161,7 +161,7 @@ theorem opFlow_acct (cfg : Cfg) (s s' : State) (op : Op) (g' u' : Nat) (hc : ∀
         | error e => simp [ho] at hfl
         | ok flOut =>
           simp only [ho, Except.ok.injEq] at hfl; subst hfl
-          rw [flowDelta_append, hout _ ho, pairsFlow_obs _ cfg _ (by intro k g n; rw [acct_convertERC20]; omega) tokens flIn hi]
+          rw [flowDelta_append, hout _ ho, pairsFlow_obs _ cfg _ (by intro k g n; rw [acct_convertERC20 g' x hx]; omega) tokens flIn hi]
           simp only [stated]; split <;> simp
   | bcresult c nonce success =>
     have hc3 := hc c rfl
@@ -174,7 +174,7 @@ theorem opFlow_acct (cfg : Cfg) (s s' : State) (op : Op) (g' u' : Nat) (hc : ∀
       cases success
       · simp only [Bool.false_eq_true, ↓reduceIte] at hfl
         simp only [stated, he, Bool.false_eq_true, ↓reduceIte]
-        exact refundFlow_acct cfg c call g' u' hc3 fl hfl
+        exact refundFlow_acct cfg c call g' x hx hc3 fl hfl
       · simp only [↓reduceIte, Except.ok.injEq] at hfl; subst hfl; rfl
   | bctimeout c nonce =>
     have hc3 := hc c rfl
@@ -185,7 +185,7 @@ theorem opFlow_acct (cfg : Cfg) (s s' : State) (op : Op) (g' u' : Nat) (hc : ∀
       obtain ⟨call, rest⟩ := pr
       simp only [he] at hfl
       simp only [stated, he]
-      exact refundFlow_acct cfg c call g' u' hc3 fl hfl
+      exact refundFlow_acct cfg c call g' x hx hc3 fl hfl
   | bcin c to tokens =>
     have hc3 := hc c rfl
     simp only [opFlow] at hfl; exc'
@@ -197,9 +197,9 @@ theorem opFlow_acct (cfg : Cfg) (s s' : State) (op : Op) (g' u' : Nat) (hc : ∀
       | error e => simp [h2] at hfl
       | ok fl2 =>
         simp only [h2, Except.ok.injEq] at hfl; subst hfl
-        rw [flowDelta_append, pairsFlow_obs _ cfg _ (by intro k g n; rw [acct_convertCoin]; omega) tokens fl2 h2,
-          tokensFlow_obs _ cfg c g' _ (if to = u' then 1 else 0)
-            (by intro k g n _; rw [acct_deposit g' u' k g c to n hc3]; split <;> split <;> simp_all) tokens fl1 h1]
+        rw [flowDelta_append, pairsFlow_obs _ cfg _ (by intro k g n; rw [acct_convertCoin g' x hx]; omega) tokens fl2 h2,
+          tokensFlow_obs _ cfg c g' _ (if U to = x then 1 else 0)
+            (by intro k g n _; rw [acct_deposit g' x hx k g c to n hc3]; split <;> split <;> simp_all) tokens fl1 h1]
         simp only [stated]; split <;> simp
   | bcinfail c r tokens =>
     have hc3 := hc c rfl
@@ -214,21 +214,21 @@ theorem opFlow_acct (cfg : Cfg) (s s' : State) (op : Op) (g' u' : Nat) (hc : ∀
       | ok fl2 =>
         simp only [h2, Except.ok.injEq] at hfl; subst hfl
         rw [flowDelta_append,
-          tokensFlow_obs _ cfg c g' _ (if r = u' then 1 else 0)
-            (by intro k g n _; rw [acct_depositBadRefund g' u' k g c r n hc3]; split <;> split <;> simp_all) tokens fl1 h1,
-          tokensFlow_obs _ cfg c g' _ (if r = u' then -1 else 0)
-            (by intro k g n _; rw [acct_withdraw g' u' k g c r n hc3]; split <;> split <;> simp_all) tokens fl2 h2]
+          tokensFlow_obs _ cfg c g' _ (if U r = x then 1 else 0)
+            (by intro k g n _; rw [acct_depositBadRefund g' x hx k g c r n hc3]; split <;> split <;> simp_all) tokens fl1 h1,
+          tokensFlow_obs _ cfg c g' _ (if U r = x then -1 else 0)
+            (by intro k g n _; rw [acct_withdraw g' x hx k g c r n hc3]; split <;> split <;> simp_all) tokens fl2 h2]
         simp only [stated]; split <;> simp <;> omega
   | convertCoin g u r n =>
     simp only [opFlow] at hfl; exc'
     cases hp : pairOk cfg g with
     | none => simp [hp] at hfl
-    | some k => simp only [hp, Except.ok.injEq] at hfl; subst hfl; rw [acct_convertCoin]; rfl
+    | some k => simp only [hp, Except.ok.injEq] at hfl; subst hfl; rw [acct_convertCoin g' x hx]; rfl
   | convertERC20 g u r n =>
     simp only [opFlow] at hfl; exc'
     cases hp : pairOk cfg g with
     | none => simp [hp] at hfl
-    | some k => simp only [hp, Except.ok.injEq] at hfl; subst hfl; rw [acct_convertERC20]; rfl
+    | some k => simp only [hp, Except.ok.injEq] at hfl; subst hfl; rw [acct_convertERC20 g' x hx]; rfl
   | convertDenom g u r n src dst =>
     simp only [opFlow] at hfl; exc'
     simp only [stepCore] at h; exc'
@@ -246,15 +246,15 @@ theorem opFlow_acct (cfg : Cfg) (s s' : State) (op : Op) (g' u' : Nat) (hc : ∀
           simp only [Bool.not_eq_true', Bool.not_eq_false, Bool.and_eq_true] at hb
           have hs := okDen_denOk hb.1
           have hd := okDen_denOk hb.2
-          rw [flowDelta_append, acct_convertDenom g' u' k g u n src dst' hs hd]
+          rw [flowDelta_append, acct_convertDenom g' x hx k g u n src dst' hs hd]
           simp only [stated]
           split
           · rename_i hur; subst hur; simp [Obs.flowDelta]
-          · rw [acct_sendPair g' u' g u r n dst' hd]; omega
+          · rw [acct_sendPair g' x hx g u r n dst' hd]; omega
 
 /-- every successful operation changes every user's holdings of every token group by exactly the stated amount -/
-theorem step_holdings (cfg : Cfg) (s s' : State) (op : Op) (g' u' : Nat) (h : step cfg s op = .ok s') :
-    (acctObs g' (U u')).val s'.L = (acctObs g' (U u')).val s.L + stated s op u' g' := by
+theorem step_holdings (cfg : Cfg) (s s' : State) (op : Op) (g' : Nat) (x : Addr) (hx : Holder x) (h : step cfg s op = .ok s') :
+    (acctObs g' x).val s'.L = (acctObs g' x).val s.L + stated s op x g' := by
   unfold step at h
   have key : stepCore cfg s op = .ok s' ∧ ∀ c, op.chain? = some c → c < 3 := by
     cases hch : op.chain? with
@@ -264,7 +264,7 @@ theorem step_holdings (cfg : Cfg) (s s' : State) (op : Op) (g' u' : Nat) (h : st
       split at h
       · rename_i hc; exact ⟨h, by intro c' hc'; cases hc'; exact hc⟩
       · cases h
-  obtain ⟨fl, hfl, hval⟩ := stepCore_obs (acctObs_sound g' (U u')) cfg s s' op key.1
-  rw [hval, opFlow_acct cfg s s' op g' u' key.2 key.1 fl hfl]
+  obtain ⟨fl, hfl, hval⟩ := stepCore_obs (acctObs_sound g' x) cfg s s' op key.1
+  rw [hval, opFlow_acct cfg s s' op g' x hx key.2 key.1 fl hfl]
 
 end FxVerif.Proofs.C04
